@@ -182,6 +182,14 @@ def progress_rule(run, rn, outer):
         for site, did in incs:
             counted.setdefault(did, []).append(site)
         good = [did for did, sites in counted.items() if ers and all(q.must_follow(own, e, sites) for e in ers)]
+        # a per-round counter that is added to another variable afterwards on every path carries the count over
+        for _ in range(2):
+            for n_ in own.all_nodes():
+                if n_['k'] == 'bin' and n_['op'] == '+=':
+                    src, dstv = q.strip_casts(n_['rhs']), q.strip_casts(n_['lhs'])
+                    if is_node(src) and src['k'] == 'ref' and src.get('did') in good and is_node(dstv) and dstv['k'] == 'ref' and dstv.get('did') not in good:
+                        if all(q.must_follow(own, s_, [n_]) for s_ in counted.get(src['did'], [])):
+                            good.append(dstv['did'])
         ok = bool(good)
         why = 'a timer is removed from the queue and fired without the round being counted as progress by a constant increment: when its wait has no handler the round looks idle and run() returns although later timers are still queued (a second run() then moves the clock)'
         if ok and own is rn:
